@@ -376,6 +376,47 @@ func init() {
 		Old: "\t\t\t\ts.mu.Lock()\n\t\t\t\tdefer s.mu.Unlock()\n\t\t\t\tmsgs = FenceMatch", New: "\t\t\t\ts.mu.RLock()\n\t\t\t\tdefer s.mu.RUnlock()\n\t\t\t\tmsgs = FenceMatch",
 		Expect: "R5.under-lock", Key: "FenceMatch", Why: "fence evaluation under the shared lock"})
 
+	// ---- R16 ---------------------------------------------------------------
+	mutant(&Mutant{Name: "expire-arity-loosened", Props: []string{"C16"}, File: fCrud,
+		Old: "\targs := msg.Args\n\tif len(args) != 4 {\n\t\treturn retwerr(errInvalidNumberOfArguments)\n\t}\n\tkey, id, svalue := args[1], args[2], args[3]",
+		New: "\targs := msg.Args\n\tif len(args) < 3 {\n\t\treturn retwerr(errInvalidNumberOfArguments)\n\t}\n\tkey, id, svalue := args[1], args[2], args[3]",
+		Expect: "R16.bounds", Key: "cmdEXPIRE→args[3]", Why: "EXPIRE key id (without seconds) indexes past the arguments"})
+	mutant(&Mutant{Name: "jset-no-default", Props: []string{"C16"}, File: fJSON,
+		Old: "\tswitch len(msg.Args) {\n\tdefault:\n\t\treturn NOMessage, d, errInvalidNumberOfArguments\n\tcase 5:", New: "\tswitch len(msg.Args) {\n\tcase 5:",
+		Expect: "R16.bounds", Key: "cmdJset→msg.Args[", Why: "JSET with too few arguments is not rejected"})
+	mutant(&Mutant{Name: "set-field-guard-off-by-one", Props: []string{"C16"}, File: fCrud,
+		Old: "\t\tcase \"field\":\n\t\t\tif i+2 >= len(args) {", New: "\t\tcase \"field\":\n\t\t\tif i+2 > len(args) {",
+		Expect: "R16.bounds", Key: "cmdSET→args[i + 2]", Why: "SET k id FIELD name (value missing) indexes past the arguments"})
+	mutant(&Mutant{Name: "where-empty-token", Props: []string{"C16"}, File: "internal/server/token.go",
+		Old: "\tif len(v) == 0 {\n\t\t// an empty min value: WHERE name \"\" max\n\t\treturn false\n\t}\n", New: "",
+		Expect: "R16.bounds", Key: "detectExprToken→v[0]", Why: "reverse of the empty WHERE token fix"})
+	mutant(&Mutant{Name: "native-lone-quote", Props: []string{"C16"}, File: fServer,
+		Old: "\t\tif len(line) > 1 && line[0] == '\"' && line[len(line)-1] == '\"' {", New: "\t\tif line[0] == '\"' && line[len(line)-1] == '\"' {",
+		Expect: "R16.bounds", Key: "readNativeMessageLine→line[1:len(line) - 1]", Why: "reverse of the lone double quote fix"})
+	mutant(&Mutant{Name: "timeout-rewrite-empty", Props: []string{"C16"}, File: fServer,
+		Old: "\tif vs, valStr, ok = tokenval(vs); !ok || valStr == \"\" || len(vs) == 0 {", New: "\tif vs, valStr, ok = tokenval(vs); !ok || valStr == \"\" {",
+		Expect: "R16.message-nonempty", Key: "rewriteTimeoutMsg", Why: "TIMEOUT 5 (no command) leaves a message without arguments: Command() indexes Args[0]"})
+	mutant(&Mutant{Name: "glob-limits-one-element", Props: []string{"C16"}, File: "internal/glob/glob.go",
+		Old: "\tg := &Glob{Pattern: pattern, Desc: desc, Limits: []string{\"\", \"\"}}", New: "\tg := &Glob{Pattern: pattern, Desc: desc, Limits: []string{\"\"}}",
+		Expect: "R16.bounds", Key: "field-length-invariant/Glob.Limits", Why: "every g.Limits[1] in the callers is out of range"})
+	mutant(&Mutant{Name: "fset-xx-return-nil", Props: []string{"C16", "C17"}, File: fCrud,
+		Old: "\tif ret && d.obj != nil {", New: "\tif ret {",
+		Expect: "R16.object-contract", Key: "cmdFSET", Why: "reverse of the FSET XX RETURN fix"})
+	mutant(&Mutant{Name: "whereeval-leak-on-bad-sha", Props: []string{"C16"}, File: "internal/server/token.go",
+		Old: "\t\t\t\t\terr = errShaNotFound\n\t\t\t\t\twhereeval.Close()\n\t\t\t\t\treturn", New: "\t\t\t\t\terr = errShaNotFound\n\t\t\t\t\treturn",
+		Expect: "R16.pool-pairing", Key: "parseSearchScanBaseTokens", Why: "reverse of the pool leak fix (unknown sha)"})
+	mutant(&Mutant{Name: "whereeval-no-deferred-closer", Props: []string{"C16"}, File: "internal/server/token.go",
+		Old: "\tdefer func() {\n\t\tif err != nil {\n\t\t\tfor _, whereeval := range t.whereevals {\n\t\t\t\twhereeval.Close()\n\t\t\t}\n\t\t}\n\t}()\n", New: "",
+		Expect: "R16.pool-pairing", Key: "parseSearchScanBaseTokens", Why: "reverse of the pool leak fix (later token errors)"})
+	mutant(&Mutant{Name: "gate-without-return", Props: []string{"C16", "C17"}, File: fServer,
+		Old: "\t\twrite = true\n\t\ts.mu.Lock()\n\t\tdefer s.mu.Unlock()\n\t\tif s.config.followHost() != \"\" {\n\t\t\treturn writeErr(\"not the leader\")\n\t\t}\n\t\tif s.config.readOnly() {\n\t\t\treturn writeErr(\"read only\")\n\t\t}",
+		New: "\t\twrite = true\n\t\ts.mu.Lock()\n\t\tdefer s.mu.Unlock()\n\t\tif s.config.followHost() != \"\" {\n\t\t\treturn writeErr(\"not the leader\")\n\t\t}\n\t\tif s.config.readOnly() {\n\t\t\twriteErr(\"read only\")\n\t\t}",
+		Expect: "R16.one-reply", Key: "read only", Why: "the read-only gate answers and then executes the command: two replies"})
+	mutant(&Mutant{Name: "nonatomic-no-recover", Props: []string{"C16"}, File: fScripts,
+		Old: "\t\t\tdefer func() {\n\t\t\t\tif msg.Deadline.Hit() {\n\t\t\t\t\tv := recover()\n\t\t\t\t\tif v != nil {\n\t\t\t\t\t\tif s, ok := v.(string); !ok || s != \"deadline\" {\n\t\t\t\t\t\t\tpanic(v)\n\t\t\t\t\t\t}\n\t\t\t\t\t}\n\t\t\t\t\tres = NOMessage\n\t\t\t\t\terr = errTimeout\n\t\t\t\t}\n\t\t\t}()\n\t\t}\n\t\treturn s.commandInScript(msg)\n\t}()\n\tif err != nil {\n\t\treturn resp.NullValue(), err\n\t}\n\n\tif write {\n\t\tif err := s.writeAOF(msg.Args, &d); err != nil {\n\t\t\treturn resp.NullValue(), err\n\t\t}\n\t}\n\n\treturn res, nil\n}\n\n// Opens",
+		New: "\t\t}\n\t\treturn s.commandInScript(msg)\n\t}()\n\tif err != nil {\n\t\treturn resp.NullValue(), err\n\t}\n\n\tif write {\n\t\tif err := s.writeAOF(msg.Args, &d); err != nil {\n\t\t\treturn resp.NullValue(), err\n\t\t}\n\t}\n\n\treturn res, nil\n}\n\n// Opens",
+		Expect: "R16.deadline-recover", Key: "luaTile38NonAtomic", Why: "a TIMEOUT that fires inside EVALNA kills the process"})
+
 	// ---- neutral variants --------------------------------------------------
 	mutant(&Mutant{Name: "neutral-rename-write-flag", Props: []string{"C03", "C07", "C15"}, Neutral: true, File: fScripts,
 		Old: "func (s *Server) luaTile38NonAtomic(msg *Message) (resp.Value, error) {\n\tvar write bool\n", New: "func (s *Server) luaTile38NonAtomic(msg *Message) (resp.Value, error) {\n\tvar write bool\n\t_ = \"neutral\"\n",
